@@ -26,28 +26,28 @@ func init() {
 			"F-order — in files.(*Storage).ReceiveBlob the single VFS.Rename has as source the Name() of the file returned by the VFS.TempFile call and as destination blobPath(ref) of the received ref (the very function the readers use); every call that writes into that temp file, then Sync() on it, then Close() on it have all succeeded (err==nil edge) on every path to the Rename, Sync precedes Close, and every return whose error may be nil is behind the success edge of the Rename. " +
 			"F-cleanup (= C13 G-tmp) — after TempFile succeeds every path to a return passes the registration of a deferred cleanup (or an explicit VFS.Remove) of that temp file unless the Rename succeeded; the deferred cleanup removes the file whenever its success flag is false; the flag is set only behind the Rename's success edge. " +
 			"F-visible — every VFS.Open/Stat/Lstat/Remove in package files takes blobPath(ref) (which ends in blobFileBaseName, whose constant format ends in the extension), or the receive path's own temp file, or is the enumeration's directory-entry stat; in readBlobs every channel send is behind strings.HasSuffix(name, ext)==true for the very name the sent ref is computed from, with the same ext constant as the writer and TrimSuffix; the TempFile prefix ends in a constant tail that can never complete the extension and contains no '*'; every VFS implementation's TempFile only appends to the prefix (os.CreateTemp pattern, or prefix+hex/decimal suffix). " +
-			"D-order — in diskpacked.(*storage).append the index Set is behind the success edges of writer.Sync(), which is behind the success edges of every data write into s.writer (header and body) and behind the written-count == br.Size test; every maybe-nil return is behind the Set's success edge. In diskpacked.ReceiveBlob the duplicate-ack return (the only nil-error return that is not append's verdict) is behind {meta found, os.Stat(filename(m.file)) ok, fi.Size() >= m.offset+m.size}. " +
+			"D-order — in diskpacked.(*storage).append the index Set is behind the success edges of writer.Sync(), which is behind the success edges of every data write into s.writer (header and body) and behind the written-count == br.Size test; every maybe-nil return is behind the Set's success edge. In diskpacked.ReceiveBlob the duplicate-ack return (the only nil-error return that is not append's verdict) is behind {meta found, os.Stat(filename(m.file)) ok, fi.Size() >= m.offset+m.size}; the last is decided on linear forms: some dominating ordering comparison, normalised to F >= 0 and flattened through +, -, conversions, locals and one-expression helpers, is F = fi.Size() - m.offset - m.size + k with k <= 0 and no other term (so `fi.Size()-m.offset >= int64(m.size)` is the same guard, and a guard that omits the offset or the size, or has a sign wrong, is a violation). " +
 			"D-reindex-agreement — the header writer in append (constant format: open delimiter, ref, separator, size, close delimiter; size printed base-10 from a 32-bit unsigned) and the three header readers (walkPack, readHeader, delete) use the same three delimiter bytes, base 10 and 32 bits, and delete's walk-back length counts exactly the literal bytes of the format; the deleted-marker regexp matches exactly what delete writes (and no real blobref) and both pack walkers consult it; index rows are written by append and by reindex through the same codec (blob.Ref.String → blobMeta.String) and parseBlobMeta reads the same fields in the same order. " +
 			"D-dele-order — in diskpacked.delete the header is rewritten to the deleted marker (WriteAt succeeded) before the body is destroyed (punch hole / zero fill), so a pack walk never reports a live header over a destroyed body; RemoveBlobs commits the index deletions only after all delete workers were joined (delete reads the row it is about to lose). " +
-			"D-walk-extent — a pack walker reports an entry (walkPack calls its walker / StreamBlobs sends) only where a read of the header's declared size succeeded or the extent was compared with the pack file's size, i.e. a header whose body was torn by a crash is not reported as a blob. " +
+			"D-walk-extent — a pack walker reports an entry (walkPack calls its walker / StreamBlobs sends) only where a read of the header's declared size succeeded or the extent was compared with the pack file's size, i.e. a header whose body was torn by a crash is not reported as a blob. Value clause (H7, on linear forms: integer expressions flattened through +, -, multiplication by a constant, integer conversions, local variables with one reaching store, len of a made slice and helpers that return one expression of their parameters; two loads of a variable are the same term only if no store can execute between them): (a) walkPack — on the edge that reaches the walker call some ordering comparison mentioning the file size, normalised to F >= 0, satisfies F = fileSize - OFF - SIZE exactly (all coefficients and the constant), where OFF and SIZE are the very offset and size arguments handed to the walker (which Reindex writes into the index row); so the quantity compared is the end of the reported body: it contains the entry's start, the header length consumed and the parsed size, in whatever algebraic arrangement. A comparison whose form lacks a term of OFF (header length, start offset) or differs by a constant is a violation ('extent computed from a stale position' / 'off by n'): an append torn inside the uncounted bytes would be indexed, or an intact last entry dropped. If an exact-length read is used instead, its length must equal SIZE. (b) StreamBlobs — the successful exact-length read (ReadFull buffer length / ReadAtLeast minimum / CopyN or Discard count) has as length exactly the uint32 size the sent blob is constructed with (pkg/blob constructor argument). " +
 			"F-destroy — who may destroy a path of the file-per-blob store. A table of path-destroying primitives (os/syscall/pkg-sftp: Remove, RemoveAll, Rename source and destination, Truncate, Create, WriteFile, OpenFile with write access or O_TRUNC unless O_CREATE|O_EXCL) is closed under parameter forwarding through static calls and through dispatch on files.VFS (every implementer's method contributes its effects to every interface invoke). Every site in packages files, localdisk and the VFS implementers' packages at which the destroyed path is computed (not merely forwarded), and every invoke of a destroying VFS method anywhere in the module, must be one of: the path is Name() of the file the same call obtained from VFS.TempFile; the path lies in a directory os.MkdirTemp created in the same call; the site is reached only from RemoveBlobs of a blobserver.BlobRemover (static callers only, no function-value or interface use); the effect is rename-over in ReceiveBlob itself (the atomic publish, whose operands and order F-order decides); the effect is rmdir; or the effect is a non-recursive unlink of a path that a successful VFS.ReadDirNames of the same value dominates (an empty-directory clean-up; a recursive primitive reachable from any VFS implementation's RemoveDir is a violation here). Functions that forward a path parameter must be VFS methods or unexported and never used as values. " +
 			"D-destroy — who may destroy bytes of a pack. (1) no function of package diskpacked removes, renames, truncates or re-creates a file by path (OpenFile without O_TRUNC is the only path-level write access, and the handle must stay local or become storage.writer). (2) every call in the package that writes, WriteAts, truncates, seeks or takes the descriptor of an *os.File, or hands one to a writer/hook, is classified by the handle's origin: handles from os.Open cannot write; the live append handle (storage.writer) may be written only in append, sought only neutrally (Seek(0, SeekCurrent/SeekEnd)) and moved back/truncated only as the roll-back of the current failed append — the offset is s.size (or the handle's position) read before the call's first write and first s.size update, and no return that may report success is reachable afterwards (a roll-back helper is followed through its static call sites); a handle opened writable locally may be modified only in a function reached only from RemoveBlobs, behind a successful meta(<ref parameter>) lookup, on filename(row.file), at WriteAt positions derived from row.offset, Seek(row.offset, SeekStart), exactly row.size bytes behind that Seek, or a hook call with exactly (row.offset, row.size) (a zero-fill helper is followed likewise). (3) index rows are deleted (Delete on the KeyValue or a batch; Wipe never) only in functions reached only from RemoveBlobs, with key String() of one of the refs passed in. " +
-			"NOT decided: that a blob path is not aliased by another spelling, destroyers outside these packages (tools operating on the directory), whether Name() of a VFS.TempFile result is the created path, that storage.size equals the pack's length between calls (the roll-back offset is only shown to be the value captured before this call's writes), roll-backs placed in function literals/defers (reported undecided), torn writes and what a particular crash image looks like, fsync/rename semantics of the OS or of a remote VFS (sftp's Sync is a no-op), directory fsync, durability of the KV index file, what HashName()/Digest() may contain, recovery behaviour (re-opening a pack with a torn tail, Reindex on it), removal crash states (index row still present over a zeroed body), equality of fetched bytes with received bytes.",
+			"NOT decided: that a blob path is not aliased by another spelling, destroyers outside these packages (tools operating on the directory), whether Name() of a VFS.TempFile result is the created path, that storage.size equals the pack's length between calls (the roll-back offset is only shown to be the value captured before this call's writes), roll-backs placed in function literals/defers (reported undecided), torn writes and what a particular crash image looks like, fsync/rename semantics of the OS or of a remote VFS (sftp's Sync is a no-op), directory fsync, durability of the KV index file, what HashName()/Digest() may contain, recovery behaviour other than D-walk-extent (re-opening a pack with a torn tail; that Reindex stores the walker's arguments unchanged), whether the offset handed to the walker is itself the true body offset (the '+1' for the opening delimiter and the header length are only required to be the SAME in the reported offset and in the compared extent — dropping the +1 in both places is invisible here), that the file size compared with belongs to the pack being walked, that the walk continues at offset+size, that reads start at the body offset, integer overflow/wrap-around and narrowing conversions in the extent arithmetic (forms are over the integers), a second, stricter comparison next to an exact one, extent guards hidden in helpers with control flow or in methods of the row type (reported as violation/undecided, not followed), removal crash states (index row still present over a zeroed body), equality of fetched bytes with received bytes.",
 		RuleDocs: map[string]string{
 			"F-order":             "files.(*Storage).ReceiveBlob: Rename(tmp.Name(), blobPath(ref)) is dominated by the success edges of all writes into tmp, tmp.Sync(), tmp.Close(); nil-error returns are dominated by Rename success",
 			"F-cleanup":           "F-order(iii), shared with C13 as G-tmp: temp-file cleanup registered right after TempFile succeeds, removes unless the success flag is set, flag set only after Rename succeeded",
 			"F-visible":           "every VFS path access in package files is blobPath(ref)/own temp/enumeration stat; readBlobs sends only behind HasSuffix(name, ext); temp names cannot end in ext; VFS.TempFile implementations append only",
-			"D-order":             "diskpacked.append: data writes → size check → Sync → index.Set → nil return, each on the success edge of the previous; ReceiveBlob duplicate-ack behind {meta, Stat, size >= offset+size}",
+			"D-order":             "diskpacked.append: data writes → size check → Sync → index.Set → nil return, each on the success edge of the previous; ReceiveBlob duplicate-ack behind {meta, Stat, a comparison whose linear form is fi.Size() - m.offset - m.size + k >= 0, k <= 0}",
 			"D-reindex-agreement": "pack header writer vs. readers (delimiters, base, bit size, walk-back length), deleted-marker regexp vs. what delete writes, index row codec shared by append/reindex/parseBlobMeta",
 			"D-dele-order":        "diskpacked.delete: header rewrite succeeded before body destruction; RemoveBlobs: join of delete workers precedes the index CommitBatch",
 			"F-destroy":           "files/localdisk/VFS implementers: every computed path handed (directly, through forwarding helpers or through files.VFS dispatch) to a removing/renaming/truncating primitive is the receive's own TempFile name, inside a fresh MkdirTemp dir, reached only from RemoveBlobs, the publishing Rename's destination in ReceiveBlob, or a non-recursive removal of a directory just listed by ReadDirNames",
 			"D-destroy":           "diskpacked: no path-level destroyer; storage.writer written only in append, rewound/truncated only as roll-back of the current failed append to the offset captured before its first write; locally opened writable packs modified only below RemoveBlobs within the removed blob's row extent; index rows deleted only below RemoveBlobs for the refs passed in",
-			"D-walk-extent":       "pack walkers (walkPack's walker call, StreamBlobs' send): an entry is reported only after its body was read in full or its extent was compared with the file size",
+			"D-walk-extent":       "pack walkers (walkPack's walker call, StreamBlobs' send): an entry is reported only after its body was read in full or its extent was compared with the file size; and (linear forms) what was compared with the file size is exactly offset+size of the arguments handed to the walker, resp. the length read is exactly the size the sent blob is declared with",
 		},
 		Run:       runC03,
 		DesignRef: "DESIGN.md §4 C03",
-		Technique: "static analysis: dominance on err==nil edges (must-precede) over go/ssa, value dependence, CFG path exploration for the cleanup pairing, constant/format-string table agreement between writers and readers; who-may-destroy: a table of path/handle-destroying primitives closed under parameter forwarding (static calls, files.VFS dispatch), classification of each root site by value dependence of the destroyed path/extent and by who-may-reach (static callers, function-value uses, interface invoke sites)",
-		LevelText: "Decides structural necessary conditions only: the write ordering (write→sync→close→rename→ack; write→sync→index→ack; header-marked-deleted→body destroyed), the visibility filters (.dat only), the agreement of the on-disk codecs between writers and readers, and that no code of the two stores other than the requested removal (and the roll-back of a failed, unacknowledged append) can destroy a final blob file, bytes of a pack or an index row. Does not decide the behaviour on any concrete crash image, OS/VFS durability semantics, or recovery.",
+		Technique: "static analysis: dominance on err==nil edges (must-precede) over go/ssa, value dependence, CFG path exploration for the cleanup pairing, constant/format-string table agreement between writers and readers; linear-form (leaf multiset + constant) equality between the extent a guard compares with the file size and the extent that is reported/indexed; who-may-destroy: a table of path/handle-destroying primitives closed under parameter forwarding (static calls, files.VFS dispatch), classification of each root site by value dependence of the destroyed path/extent and by who-may-reach (static callers, function-value uses, interface invoke sites)",
+		LevelText: "Decides structural necessary conditions only: the write ordering (write→sync→close→rename→ack; write→sync→index→ack; header-marked-deleted→body destroyed), the visibility filters (.dat only), the agreement of the on-disk codecs between writers and readers, that a pack walk reports an entry only behind a guard on exactly the extent it reports (consistency of the guard with the reported offset and size, not correctness of the offset itself), and that no code of the two stores other than the requested removal (and the roll-back of a failed, unacknowledged append) can destroy a final blob file, bytes of a pack or an index row. Does not decide the behaviour on any concrete crash image, OS/VFS durability semantics, or recovery.",
 	})
 }
 
@@ -1323,43 +1323,60 @@ func c03DupAck(p *Program, rb *ssa.Function, at ssa.Instruction, metaFn, filenam
 		return false, "the stat'ed path is not filename(m.file) of the looked-up row"
 	}
 	fi := ResultValue(stat, 0)
-	for _, f := range FactsAt(at.Block()) {
-		b, ok := f.Cond.(*ssa.BinOp)
-		if !ok {
-			continue
-		}
-		isSize := func(v ssa.Value) bool {
-			c, ok := originValue(v).(*ssa.Call)
-			return ok && c.Call.IsInvoke() && c.Call.Method.Name() == "Size" && fi != nil && sameOrigin(c.Call.Value, fi)
-		}
-		isExtent := func(v ssa.Value) bool {
-			leaves := c03AddLeaves(v)
-			if len(leaves) != 2 {
-				return false
+	isSize := func(v ssa.Value) bool {
+		c, ok := originValue(v).(*ssa.Call)
+		return ok && c.Call.IsInvoke() && c.Call.Method.Name() == "Size" && fi != nil && sameOrigin(c.Call.Value, fi)
+	}
+	// Every dominating ordering comparison that mentions fi.Size(), as a linear
+	// form F >= 0 (so that `fi.Size()-m.offset >= int64(m.size)`, an extent kept
+	// in a local, a negated `<` … are all the same fact). Required:
+	// F = fi.Size() - m.offset - m.size + k with k <= 0 and nothing else.
+	forms, unfollowed := c03OrderFacts(at.Block())
+	var bad []string
+	for _, f := range forms {
+		var cSize, cOff, cLen int64
+		var other []string
+		for i, x := range f.leaf {
+			c := f.coef[i]
+			if c == 0 {
+				continue
 			}
-			got := map[string]bool{}
-			for _, l := range leaves {
-				name, base, ok := c03FieldRead(l)
-				if !ok || !c03Holds(base, m) {
-					return false
+			if isSize(x) {
+				cSize += c
+				continue
+			}
+			if name, base, ok := c03FieldRead(x); ok && c03Holds(base, m) && (name == "offset" || name == "size") {
+				if name == "offset" {
+					cOff += c
+				} else {
+					cLen += c
 				}
-				got[name] = true
+				continue
 			}
-			return got["offset"] && got["size"]
+			other = append(other, c03LeafName(x))
 		}
-		var geq bool // the fact implies size >= extent
-		switch {
-		case isSize(b.X) && isExtent(b.Y):
-			geq = (b.Op == token.GEQ || b.Op == token.GTR) && f.Val || (b.Op == token.LSS || b.Op == token.LEQ) && !f.Val
-		case isSize(b.Y) && isExtent(b.X):
-			geq = (b.Op == token.LEQ || b.Op == token.LSS) && f.Val || (b.Op == token.GTR || b.Op == token.GEQ) && !f.Val
-		default:
+		if cSize == 0 {
 			continue
 		}
-		if geq {
+		if cSize == 1 && cOff == -1 && cLen == -1 && len(other) == 0 && f.k <= 0 {
 			return true, ""
 		}
-		return false, "the comparison between the pack file's size and the indexed extent does not imply size >= offset+size"
+		switch {
+		case cSize < 0:
+			bad = append(bad, fmt.Sprintf("the comparison between the pack file's size and the indexed extent does not imply size >= offset+size (known here: %s >= 0)", f))
+		case len(other) > 0 || cSize != 1 || cOff > 0 || cLen > 0 || cOff < -1 || cLen < -1:
+			bad = append(bad, fmt.Sprintf("the quantity compared with the pack file's size is not the row's extent m.offset+m.size (known here: %s >= 0)", f))
+		case cOff == 0 || cLen == 0:
+			bad = append(bad, fmt.Sprintf("the extent compared with the pack file's size omits the row's %s (known here: %s >= 0): a duplicate whose body was cut by a crash is acknowledged without being re-appended", map[bool]string{true: "offset", false: "size"}[cOff == 0], f))
+		default:
+			bad = append(bad, fmt.Sprintf("the comparison admits a pack file %d byte(s) shorter than the indexed extent (known here: %s >= 0)", f.k, f))
+		}
+	}
+	if len(bad) > 0 {
+		return false, strings.Join(bad, "; ")
+	}
+	if len(unfollowed) > 0 {
+		return false, "the duplicate-ack return is guarded by a call the rule cannot follow (" + strings.Join(unfollowed, ", ") + "); `fi.Size() >= m.offset+m.size` is not established"
 	}
 	return false, "the duplicate-ack return is not behind `fi.Size() >= m.offset+m.size`: after a crash that lost the tail of the pack, a re-upload of the lost blob would be acknowledged without re-appending it"
 }
@@ -1899,6 +1916,518 @@ func c03RuleDDeleOrder(p *Program, r *Reporter) {
 }
 
 // ---------------------------------------------------------------------------
+// Linear forms over integer SSA values (H7, value dependence up to + and -)
+//
+// An integer expression is flattened through +, -, unary minus, multiplication
+// by a constant, integer conversions and loads of local variables with a
+// single reaching store into sum(coef*leaf) + k. Two comparisons that are
+// rearrangements of each other (`a+b > f`, `a > f-b`, `e := a+b; !(e <= f)`)
+// have the same form, so a rule stated on forms does not depend on how the
+// arithmetic is spelled. Overflow and the truncation of narrowing conversions
+// are ignored (stated in the Explanation).
+
+type c03Lin struct {
+	leaf []ssa.Value
+	coef []int64
+	k    int64
+}
+
+func (l *c03Lin) add(v ssa.Value, c int64) {
+	if c == 0 {
+		return
+	}
+	for i, x := range l.leaf {
+		if c03SameLeaf(x, v) {
+			l.coef[i] += c
+			return
+		}
+	}
+	l.leaf = append(l.leaf, v)
+	l.coef = append(l.coef, c)
+}
+
+func (l *c03Lin) addLin(o *c03Lin, f int64) {
+	for i, x := range o.leaf {
+		l.add(x, f*o.coef[i])
+	}
+	l.k += f * o.k
+}
+
+// isZero: every coefficient and the constant are zero.
+func (l *c03Lin) isZero() bool {
+	for _, c := range l.coef {
+		if c != 0 {
+			return false
+		}
+	}
+	return l.k == 0
+}
+
+// unrelatedReads names a local variable of which the form contains two loads
+// that could not be shown to see the same value ("" if none): the residue of a
+// difference then says nothing about the arithmetic.
+func (l *c03Lin) unrelatedReads() string {
+	for i, x := range l.leaf {
+		lx, ok := x.(*ssa.UnOp)
+		if !ok || lx.Op != token.MUL || l.coef[i] == 0 {
+			continue
+		}
+		for j := i + 1; j < len(l.leaf); j++ {
+			ly, ok := l.leaf[j].(*ssa.UnOp)
+			if ok && ly.Op == token.MUL && l.coef[j] != 0 && ly.X == lx.X {
+				return c03LeafName(x)
+			}
+		}
+	}
+	return ""
+}
+
+// onlyConst: no leaf is left, whatever the constant.
+func (l *c03Lin) onlyConst() bool {
+	for _, c := range l.coef {
+		if c != 0 {
+			return false
+		}
+	}
+	return true
+}
+
+func (l *c03Lin) String() string {
+	var sb strings.Builder
+	for i, x := range l.leaf {
+		c := l.coef[i]
+		switch {
+		case c == 0:
+			continue
+		case c == 1:
+			sb.WriteString(" + ")
+		case c == -1:
+			sb.WriteString(" - ")
+		case c > 0:
+			fmt.Fprintf(&sb, " + %d*", c)
+		default:
+			fmt.Fprintf(&sb, " - %d*", -c)
+		}
+		sb.WriteString(c03LeafName(x))
+	}
+	if l.k != 0 || sb.Len() == 0 {
+		if l.k < 0 {
+			fmt.Fprintf(&sb, " - %d", -l.k)
+		} else {
+			fmt.Fprintf(&sb, " + %d", l.k)
+		}
+	}
+	return strings.TrimPrefix(strings.TrimPrefix(sb.String(), " + "), " ")
+}
+
+func c03IsInt(t types.Type) bool {
+	b, ok := t.Underlying().(*types.Basic)
+	return ok && b.Info()&types.IsInteger != 0
+}
+
+// c03LocalVar: addr is a plain local variable of its function (address never
+// taken other than by loads, stores and captures) all of whose stores are
+// direct stores in the declaring function itself.
+func c03LocalVar(addr ssa.Value) (*ssa.Alloc, []*ssa.Store, bool) {
+	al, ok := addr.(*ssa.Alloc)
+	if !ok || !plainVariable(al) {
+		return nil, nil, false
+	}
+	stores := storesTo(al)
+	for _, st := range stores {
+		if st.Parent() != al.Parent() || st.Addr != ssa.Value(al) {
+			return nil, nil, false
+		}
+	}
+	return al, stores, true
+}
+
+// c03ReachingStore returns the store whose value the load observes on every
+// execution, or nil when more than one definition (counting the zero value of
+// the fresh variable) may reach the load. A sole reaching definition is on
+// every path from the entry to the load, i.e. it dominates the load, hence its
+// stored SSA value still denotes at the load what it denoted at the store.
+func c03ReachingStore(load *ssa.UnOp) *ssa.Store {
+	al, _, ok := c03LocalVar(load.X)
+	if !ok || load.Parent() != al.Parent() {
+		return nil
+	}
+	zero := false
+	// lastDef scans b.Instrs[:n] backwards for a definition of the variable.
+	lastDef := func(b *ssa.BasicBlock, n int) (st *ssa.Store, found bool) {
+		for i := n - 1; i >= 0; i-- {
+			switch x := b.Instrs[i].(type) {
+			case *ssa.Store:
+				if x.Addr == ssa.Value(al) {
+					return x, true
+				}
+			case *ssa.Alloc:
+				if x == al {
+					zero = true
+					return nil, true
+				}
+			}
+		}
+		return nil, false
+	}
+	if st, found := lastDef(load.Block(), instrIndex(load)); found {
+		if zero {
+			return nil
+		}
+		return st
+	}
+	defs := map[*ssa.Store]bool{}
+	seen := map[*ssa.BasicBlock]bool{}
+	var walk func(b *ssa.BasicBlock)
+	walk = func(b *ssa.BasicBlock) {
+		if len(b.Preds) == 0 {
+			zero = true
+			return
+		}
+		for _, p := range b.Preds {
+			if seen[p] {
+				continue
+			}
+			seen[p] = true
+			if st, found := lastDef(p, len(p.Instrs)); found {
+				if st != nil {
+					defs[st] = true
+				}
+				continue
+			}
+			walk(p)
+		}
+	}
+	walk(load.Block())
+	if zero || len(defs) != 1 {
+		return nil
+	}
+	for st := range defs {
+		return st
+	}
+	return nil
+}
+
+// c03StoreBetween: some store of the variable may execute after `first` and
+// before the next execution of `second` without `first` executing again.
+func c03StoreBetween(first, second ssa.Instruction, stores []*ssa.Store) bool {
+	isFirst := func(in ssa.Instruction) bool { return in == first }
+	r1 := ReachableFrom(first, isFirst)
+	for _, st := range stores {
+		if !r1[st] {
+			continue
+		}
+		if ReachableFrom(st, isFirst)[second] {
+			return true
+		}
+	}
+	return false
+}
+
+func c03BuiltinLen(v ssa.Value) (arg ssa.Value, ok bool) {
+	c, isCall := v.(*ssa.Call)
+	if !isCall || len(c.Call.Args) != 1 {
+		return nil, false
+	}
+	b, isB := c.Call.Value.(*ssa.Builtin)
+	if !isB || b.Name() != "len" {
+		return nil, false
+	}
+	switch t := c.Call.Args[0].Type().Underlying().(type) {
+	case *types.Slice:
+		return c.Call.Args[0], true
+	case *types.Basic:
+		if t.Info()&types.IsString != 0 {
+			return c.Call.Args[0], true
+		}
+	}
+	return nil, false
+}
+
+// c03SameLeaf: the two SSA values denote the same number wherever both are
+// live: the same value; two loads of one local variable with no store between
+// them; len of the same slice/string value; the same field of the same struct
+// value.
+func c03SameLeaf(a, b ssa.Value) bool {
+	if a == b {
+		return true
+	}
+	la, ok1 := a.(*ssa.UnOp)
+	lb, ok2 := b.(*ssa.UnOp)
+	if ok1 && ok2 && la.Op == token.MUL && lb.Op == token.MUL && la.X == lb.X && la.Parent() == lb.Parent() {
+		al, stores, ok := c03LocalVar(la.X)
+		if !ok || al.Parent() != la.Parent() {
+			return false
+		}
+		first, second := la, lb
+		if !Precedes(first, second) {
+			first, second = lb, la
+			if !Precedes(first, second) {
+				return false
+			}
+		}
+		return !c03StoreBetween(first, second, stores)
+	}
+	if x, ok := c03BuiltinLen(a); ok {
+		if y, ok := c03BuiltinLen(b); ok {
+			return x == y
+		}
+		return false
+	}
+	fa, ok1 := a.(*ssa.Field)
+	fb, ok2 := b.(*ssa.Field)
+	if ok1 && ok2 {
+		return fa.Field == fb.Field && fa.X == fb.X
+	}
+	return false
+}
+
+func c03LeafName(v ssa.Value) string {
+	switch x := v.(type) {
+	case *ssa.UnOp:
+		if x.Op == token.MUL {
+			if al, ok := x.X.(*ssa.Alloc); ok && al.Comment != "" {
+				return al.Comment
+			}
+			if name, _, ok := c03FieldRead(v); ok {
+				return "." + name
+			}
+		}
+	case *ssa.Field:
+		return "." + fieldName(x.X.Type(), x.Field)
+	case *ssa.Parameter:
+		return x.Name()
+	case *ssa.Call:
+		if a, ok := c03BuiltinLen(v); ok {
+			return "len(" + c03LeafName(a) + ")"
+		}
+		if x.Call.IsInvoke() {
+			return types.TypeString(x.Call.Value.Type(), func(*types.Package) string { return "" }) + "." + x.Call.Method.Name() + "()"
+		}
+		if f := x.Call.StaticCallee(); f != nil {
+			return f.Name() + "(…)"
+		}
+	case *ssa.Extract:
+		if c, ok := x.Tuple.(*ssa.Call); ok {
+			if c.Call.IsInvoke() {
+				return fmt.Sprintf("result %d of %s()", x.Index, c.Call.Method.Name())
+			}
+			if f := c.Call.StaticCallee(); f != nil {
+				return fmt.Sprintf("result %d of %s(…)", x.Index, f.Name())
+			}
+		}
+	case *ssa.Convert:
+		return c03LeafName(x.X)
+	}
+	return v.Name()
+}
+
+// c03Env maps the parameters of a helper whose body is being followed to the
+// arguments of the call; up is the environment the arguments live in.
+type c03Env struct {
+	m  map[*ssa.Parameter]ssa.Value
+	up *c03Env
+}
+
+// c03CallEnv binds the parameters of a static callee to the call's arguments.
+func c03CallEnv(c *ssa.Call, up *c03Env) (*ssa.Function, *c03Env) {
+	callee := c.Call.StaticCallee()
+	if callee == nil || len(callee.Blocks) == 0 || len(callee.Params) != len(c.Call.Args) || callee.Pkg == nil || !strings.HasPrefix(callee.Pkg.Pkg.Path(), "perkeep.org/") {
+		return nil, nil
+	}
+	env := &c03Env{m: map[*ssa.Parameter]ssa.Value{}, up: up}
+	for i, prm := range callee.Params {
+		env.m[prm] = c.Call.Args[i]
+	}
+	return callee, env
+}
+
+// c03Foreign: the form mentions a value that lives in another function than
+// home (a followed helper reads something other than its parameters).
+func (l *c03Lin) foreign(home *ssa.Function) bool {
+	for i, x := range l.leaf {
+		if l.coef[i] != 0 && x.Parent() != nil && x.Parent() != home {
+			return true
+		}
+	}
+	return false
+}
+
+// c03LinInto adds f*v to l.
+func c03LinInto(l *c03Lin, v ssa.Value, f int64, env *c03Env, d int) {
+	if d < 48 && c03IsInt(v.Type()) {
+		switch x := v.(type) {
+		case *ssa.Const:
+			if x.Value != nil && x.Value.Kind() == constant.Int {
+				if n, ok := constant.Int64Val(x.Value); ok {
+					l.k += f * n
+					return
+				}
+			}
+		case *ssa.BinOp:
+			switch x.Op {
+			case token.ADD:
+				c03LinInto(l, x.X, f, env, d+1)
+				c03LinInto(l, x.Y, f, env, d+1)
+				return
+			case token.SUB:
+				c03LinInto(l, x.X, f, env, d+1)
+				c03LinInto(l, x.Y, -f, env, d+1)
+				return
+			case token.MUL:
+				if c, ok := x.X.(*ssa.Const); ok && c.Value != nil && c.Value.Kind() == constant.Int {
+					if n, ok := constant.Int64Val(c.Value); ok {
+						c03LinInto(l, x.Y, f*n, env, d+1)
+						return
+					}
+				}
+				if c, ok := x.Y.(*ssa.Const); ok && c.Value != nil && c.Value.Kind() == constant.Int {
+					if n, ok := constant.Int64Val(c.Value); ok {
+						c03LinInto(l, x.X, f*n, env, d+1)
+						return
+					}
+				}
+			}
+		case *ssa.Convert:
+			if c03IsInt(x.X.Type()) {
+				c03LinInto(l, x.X, f, env, d+1)
+				return
+			}
+		case *ssa.ChangeType:
+			c03LinInto(l, x.X, f, env, d+1)
+			return
+		case *ssa.UnOp:
+			switch x.Op {
+			case token.SUB:
+				c03LinInto(l, x.X, -f, env, d+1)
+				return
+			case token.MUL:
+				if st := c03ReachingStore(x); st != nil {
+					c03LinInto(l, st.Val, f, env, d+1)
+					return
+				}
+			}
+		case *ssa.Parameter:
+			if env != nil {
+				if a, ok := env.m[x]; ok {
+					c03LinInto(l, a, f, env.up, d+1)
+					return
+				}
+			}
+		case *ssa.Call:
+			// len of a slice made with a known length
+			if a, ok := c03BuiltinLen(x); ok {
+				if mk, ok := originValue(a).(*ssa.MakeSlice); ok {
+					c03LinInto(l, mk.Len, f, env, d+1)
+					return
+				}
+			}
+			// a helper that returns one linear expression of its parameters
+			if callee, cenv := c03CallEnv(x, env); callee != nil {
+				if rets := Returns(callee); len(rets) == 1 && len(rets[0].Results) == 1 {
+					t := &c03Lin{}
+					c03LinInto(t, rets[0].Results[0], 1, cenv, d+1)
+					inner := false
+					for i, y := range t.leaf {
+						if t.coef[i] != 0 && y.Parent() == callee {
+							inner = true
+						}
+					}
+					if !inner {
+						l.addLin(t, f)
+						return
+					}
+				}
+			}
+		}
+	}
+	l.add(v, f)
+}
+
+func c03LinOf(v ssa.Value) *c03Lin {
+	l := &c03Lin{}
+	c03LinInto(l, v, 1, nil, 0)
+	return l
+}
+
+// c03OrderFact turns "the comparison X op Y has truth value val" over integers
+// into a form F with the meaning F >= 0.
+func c03OrderFact(b *ssa.BinOp, val bool, env *c03Env) (*c03Lin, bool) {
+	if !c03IsInt(b.X.Type()) || !c03IsInt(b.Y.Type()) {
+		return nil, false
+	}
+	op := b.Op
+	if !val {
+		switch op {
+		case token.GTR:
+			op = token.LEQ
+		case token.GEQ:
+			op = token.LSS
+		case token.LSS:
+			op = token.GEQ
+		case token.LEQ:
+			op = token.GTR
+		}
+	}
+	l := &c03Lin{}
+	switch op {
+	case token.GTR: // X - Y - 1 >= 0
+		c03LinInto(l, b.X, 1, env, 0)
+		c03LinInto(l, b.Y, -1, env, 0)
+		l.k--
+	case token.GEQ: // X - Y >= 0
+		c03LinInto(l, b.X, 1, env, 0)
+		c03LinInto(l, b.Y, -1, env, 0)
+	case token.LSS: // Y - X - 1 >= 0
+		c03LinInto(l, b.Y, 1, env, 0)
+		c03LinInto(l, b.X, -1, env, 0)
+		l.k--
+	case token.LEQ: // Y - X >= 0
+		c03LinInto(l, b.Y, 1, env, 0)
+		c03LinInto(l, b.X, -1, env, 0)
+	default:
+		return nil, false
+	}
+	return l, true
+}
+
+// c03OrderFacts lists, as forms F (meaning F >= 0), the integer ordering
+// comparisons known at block blk. A condition that is a static call of a
+// module function whose only return yields one ordering comparison of its
+// parameters (an extracted predicate) is followed with the arguments
+// substituted. unfollowed names the conditions that are calls the rule could
+// not follow.
+func c03OrderFacts(blk *ssa.BasicBlock) (forms []*c03Lin, unfollowed []string) {
+	for _, f := range FactsAt(blk) {
+		switch c := f.Cond.(type) {
+		case *ssa.BinOp:
+			if l, ok := c03OrderFact(c, f.Val, nil); ok {
+				forms = append(forms, l)
+			}
+		case *ssa.Call:
+			callee, env := c03CallEnv(c, nil)
+			if callee == nil {
+				continue
+			}
+			followed := false
+			if rets := Returns(callee); len(rets) == 1 && len(rets[0].Results) == 1 {
+				if b, ok := rets[0].Results[0].(*ssa.BinOp); ok {
+					// nothing of the callee's own state may be left in the form
+					if l, ok := c03OrderFact(b, f.Val, env); ok && !l.foreign(blk.Parent()) {
+						forms = append(forms, l)
+						followed = true
+					}
+				}
+			}
+			if !followed {
+				unfollowed = append(unfollowed, FuncKey(callee))
+			}
+		}
+	}
+	return forms, unfollowed
+}
+
+// ---------------------------------------------------------------------------
 // D-walk-extent
 
 // c03ParsedSize: v is the size field parsed from a pack header (result of
@@ -1922,11 +2451,81 @@ func c03ParsedSize(p *Program) func(ssa.Value) bool {
 	}
 }
 
-// c03ExtentKnown reports whether, at instruction at of fn, the entry whose
-// header was just parsed is known to be complete: a read of its declared size
-// succeeded, or a dominating comparison relates the declared size to the size
-// of the file.
-func c03ExtentKnown(p *Program, fn *ssa.Function, at ssa.Instruction) (bool, string) {
+// c03IsFileSize: v is the length of a file: FileInfo.Size(), or the position
+// returned by Seek(_, io.SeekEnd) (the call or its first result).
+func c03IsFileSize(v ssa.Value) bool {
+	if ex, ok := v.(*ssa.Extract); ok && ex.Index == 0 {
+		v = ex.Tuple
+	}
+	c, ok := v.(*ssa.Call)
+	if !ok {
+		return false
+	}
+	if c.Call.IsInvoke() {
+		return c.Call.Method.Name() == "Size" && IsNamed(types.Unalias(c.Call.Value.Type()), "io/fs", "FileInfo") // os.FileInfo is an alias
+	}
+	f := c.Call.StaticCallee()
+	if funcIs(f, "os", "File", "Seek") && len(c.Call.Args) == 3 {
+		w, ok := ConstInt(c.Call.Args[2])
+		return ok && w == 2 // io.SeekEnd
+	}
+	return false
+}
+
+// c03ReadLength returns the number of bytes a successful call of one of the
+// exact-length read primitives has consumed, as an SSA value; nil when the
+// buffer's length cannot be named.
+func c03ReadLength(c CallSite) ssa.Value {
+	bufLen := func(buf ssa.Value) ssa.Value {
+		switch x := originValue(buf).(type) {
+		case *ssa.MakeSlice:
+			return x.Len
+		case *ssa.Slice:
+			if x.High != nil && (x.Low == nil || c03ConstIs(x.Low, 0)) {
+				return x.High
+			}
+		}
+		return nil
+	}
+	a := c.Common().Args
+	switch {
+	case c.IsStatic("io", "", "ReadFull") && len(a) == 2:
+		return bufLen(a[1])
+	case c.IsStatic("io", "", "ReadAtLeast") && len(a) == 3:
+		return a[2]
+	case c.IsStatic("io", "", "CopyN") && len(a) == 3:
+		return a[2]
+	case c.IsStatic("bufio", "Reader", "Discard") && len(a) == 2:
+		return a[1]
+	case c.IsStatic("os", "File", "ReadAt") && len(a) == 3:
+		return bufLen(a[1])
+	}
+	return nil
+}
+
+// c03Extent is what is known about the completeness of the entry whose header
+// was just parsed, at one reporting site.
+type c03Extent struct {
+	reads      []CallSite // exact-length reads of the declared size whose success dominates the site
+	compared   bool       // a dominating comparison relates the declared size to the size of the file
+	forms      []*c03Lin  // the dominating ordering comparisons that mention a file size, as F >= 0
+	unfollowed []string
+}
+
+func (e *c03Extent) known() (bool, string) {
+	if len(e.reads) > 0 {
+		return true, "behind a successful " + e.reads[0].CalleeKey() + " of the header's declared size"
+	}
+	if e.compared {
+		return true, "behind a comparison of the entry's extent with the pack file's size"
+	}
+	return false, ""
+}
+
+// c03ExtentAt collects the reads and comparisons that establish, at
+// instruction at of fn, that the entry whose header was just parsed is complete.
+func c03ExtentAt(p *Program, fn *ssa.Function, at ssa.Instruction) *c03Extent {
+	e := &c03Extent{}
 	parsed := c03ParsedSize(p)
 	for _, c := range CallsIn(fn, false) {
 		v := c.Value()
@@ -1946,27 +2545,23 @@ func c03ExtentKnown(p *Program, fn *ssa.Function, at ssa.Instruction) (bool, str
 			continue
 		}
 		if ok, _ := SuccessDominates(v, at); ok {
-			return true, "behind a successful " + c.CalleeKey() + " of the header's declared size"
+			e.reads = append(e.reads, c)
 		}
 	}
-	isFileSize := func(v ssa.Value) bool {
-		c, ok := v.(*ssa.Call)
-		if !ok {
-			return false
-		}
-		if c.Call.IsInvoke() {
-			return c.Call.Method.Name() == "Size" && IsNamed(types.Unalias(c.Call.Value.Type()), "io/fs", "FileInfo") // os.FileInfo is an alias
-		}
-		f := c.Call.StaticCallee()
-		if funcIs(f, "os", "File", "Seek") && len(c.Call.Args) == 3 {
-			w, ok := ConstInt(c.Call.Args[2])
-			return ok && w == 2 // io.SeekEnd
-		}
-		return false
-	}
+	isFileSize := func(v ssa.Value) bool { _, isCall := v.(*ssa.Call); return isCall && c03IsFileSize(v) }
 	for _, f := range FactsAt(at.Block()) {
 		b, ok := f.Cond.(*ssa.BinOp)
 		if !ok {
+			if c, isCall := f.Cond.(*ssa.Call); isCall {
+				fs, ps := false, false
+				for _, a := range c.Call.Args {
+					fs = fs || c03Depends(a, isFileSize)
+					ps = ps || c03Depends(a, parsed)
+				}
+				if fs && ps {
+					e.compared = true
+				}
+			}
 			continue
 		}
 		switch b.Op {
@@ -1975,26 +2570,141 @@ func c03ExtentKnown(p *Program, fn *ssa.Function, at ssa.Instruction) (bool, str
 			continue
 		}
 		if c03Depends(b.X, isFileSize) && c03Depends(b.Y, parsed) || c03Depends(b.Y, isFileSize) && c03Depends(b.X, parsed) {
-			return true, "behind a comparison of the entry's extent with the pack file's size"
+			e.compared = true
 		}
 	}
-	return false, ""
+	forms, unfollowed := c03OrderFacts(at.Block())
+	for _, l := range forms {
+		for i, x := range l.leaf {
+			if l.coef[i] != 0 && c03IsFileSize(x) {
+				e.forms = append(e.forms, l)
+				break
+			}
+		}
+	}
+	e.unfollowed = unfollowed
+	return e
+}
+
+// c03ExtentValue decides the value clause of D-walk-extent at one reporting
+// site: what was read, or what was compared with the file size, is exactly the
+// end of the body that is reported (offset+size; offset nil for a sequential
+// reader, where only the length read matters).
+//
+//	status 0 = holds, 1 = violated, 2 = undecided
+func c03ExtentValue(e *c03Extent, offset, size ssa.Value) (status int, detail string) {
+	sizeForm := c03LinOf(size)
+	var bad []string
+	undecided := ""
+	for _, rd := range e.reads {
+		n := c03ReadLength(rd)
+		if n == nil {
+			undecided = "the length of the buffer handed to " + rd.CalleeKey() + " could not be named"
+			continue
+		}
+		d := c03LinOf(n)
+		d.addLin(sizeForm, -1)
+		if d.isZero() {
+			return 0, fmt.Sprintf("the successful %s consumed exactly the reported size (%s)", rd.CalleeKey(), sizeForm)
+		}
+		bad = append(bad, fmt.Sprintf("%s reads %s bytes, the entry is reported with size %s (difference %s): the body is not known to be complete", rd.CalleeKey(), c03LinOf(n), sizeForm, d))
+	}
+	if offset != nil {
+		for _, f := range e.forms {
+			// the file-size leaf of this fact
+			var fs ssa.Value
+			nfs := 0
+			for i, x := range f.leaf {
+				if f.coef[i] != 0 && c03IsFileSize(x) {
+					fs = x
+					nfs++
+				}
+			}
+			if nfs != 1 {
+				continue
+			}
+			// want: F == fileSize - offset - size
+			d := &c03Lin{}
+			d.addLin(f, 1)
+			d.add(fs, -1)
+			d.addLin(c03LinOf(offset), 1)
+			d.addLin(sizeForm, 1)
+			if d.isZero() {
+				return 0, fmt.Sprintf("on this edge %s >= 0 is known, which is fileSize - (offset handed on) - (size handed on) with offset = %s, size = %s", f, c03LinOf(offset), sizeForm)
+			}
+			if d.onlyConst() {
+				bad = append(bad, fmt.Sprintf("the extent compared with the file size is off by %+d from (offset handed on)+(size handed on): known here is %s >= 0, the reported body ends at %s + %s; an off-by-%d either reports a body torn by that many bytes or drops an intact entry that ends the pack", -d.k, f, c03LinOf(offset), sizeForm, c03Abs(d.k)))
+				continue
+			}
+			if v := d.unrelatedReads(); v != "" {
+				undecided = fmt.Sprintf("the compared extent (%s >= 0) and the reported body [%s, +%s) read variable %s at points between which it may be stored to (through a closure, or more than one definition reaches): cannot tell whether they see the same value", f, c03LinOf(offset), sizeForm, v)
+				continue
+			}
+			bad = append(bad, fmt.Sprintf("extent computed from a stale position: known here is %s >= 0, but the reported body is [%s, +%s); the compared extent and the reported one differ by %s, so an append torn within that many bytes of its end is reported as a present blob (or an intact last entry is dropped)", f, c03LinOf(offset), sizeForm, d))
+		}
+	}
+	if len(bad) > 0 {
+		return 1, strings.Join(bad, "; ")
+	}
+	if undecided != "" {
+		return 2, undecided
+	}
+	if len(e.unfollowed) > 0 {
+		return 2, "the condition guarding the report is a call the rule cannot follow (not a single ordering comparison of its parameters): " + strings.Join(e.unfollowed, ", ")
+	}
+	return 2, "a comparison involving the file size guards the report, but not one that is linear (+,-) in the file size, the offset and the size handed on"
+}
+
+func c03Abs(n int64) int64 {
+	if n < 0 {
+		return -n
+	}
+	return n
+}
+
+func c03ReportExtentValue(r *Reporter, rule, construct, site string, e *c03Extent, offset, size ssa.Value) {
+	st, detail := c03ExtentValue(e, offset, size)
+	switch st {
+	case 0:
+		r.OK(rule, construct, site, detail)
+	case 1:
+		r.Violation(rule, construct, site, detail)
+	default:
+		r.Undecided(rule, construct, site, detail)
+	}
 }
 
 func c03RuleDWalkExtent(p *Program, r *Reporter) {
 	const rule = "D-walk-extent"
-	r.Floor(rule, 2)
+	r.Floor(rule, 4)
 	const bad = "the entry is reported without its body having been read and without comparing its extent with the file size: after a crash that tore the last append, the torn blob is reported with its declared size (Reindex then writes an index row for it: stat/fetch present a partial blob), and the blind skip over the declared size jumps over entries appended after a restart (Reindex silently omits acknowledged blobs)"
 	// walkPack: calls of its walker parameter
 	wp := p.Func(c03PkgDP, "storage", "walkPack")
 	var walker *ssa.Parameter
+	offIdx, sizeIdx := -1, -1
 	for _, prm := range wp.Params {
-		if _, ok := prm.Type().Underlying().(*types.Signature); ok {
+		if sig, ok := prm.Type().Underlying().(*types.Signature); ok {
 			walker = prm
+			for i := 0; i < sig.Params().Len(); i++ {
+				if b, ok := sig.Params().At(i).Type().Underlying().(*types.Basic); ok {
+					switch b.Kind() {
+					case types.Int64:
+						if offIdx >= 0 {
+							brokenf("anchor unresolved: the walker of diskpacked.(*storage).walkPack has two int64 parameters")
+						}
+						offIdx = i
+					case types.Uint32:
+						if sizeIdx >= 0 {
+							brokenf("anchor unresolved: the walker of diskpacked.(*storage).walkPack has two uint32 parameters")
+						}
+						sizeIdx = i
+					}
+				}
+			}
 		}
 	}
-	if walker == nil {
-		brokenf("anchor unresolved: walker parameter of diskpacked.(*storage).walkPack")
+	if walker == nil || offIdx < 0 || sizeIdx < 0 {
+		brokenf("anchor unresolved: walker parameter (…, offset int64, size uint32) of diskpacked.(*storage).walkPack")
 	}
 	n := 0
 	for _, c := range CallsIn(wp, false) {
@@ -2002,8 +2712,13 @@ func c03RuleDWalkExtent(p *Program, r *Reporter) {
 			continue
 		}
 		n++
-		ok, how := c03ExtentKnown(p, wp, c.Instr)
+		e := c03ExtentAt(p, wp, c.Instr)
+		ok, how := e.known()
 		r.Check(ok, rule, FuncKey(wp)+"#walker-call", p.Pos(c.Pos()), "the walker is called "+how, bad)
+		if ok {
+			a := c.Common().Args
+			c03ReportExtentValue(r, rule, FuncKey(wp)+"#walker-call#extent-is-body-end", p.Pos(c.Pos()), e, a[offIdx], a[sizeIdx])
+		}
 	}
 	if n == 0 {
 		r.Violation(rule, FuncKey(wp)+"#walker-call", p.Pos(wp.Pos()), "walkPack never calls its walker")
@@ -2013,23 +2728,57 @@ func c03RuleDWalkExtent(p *Program, r *Reporter) {
 	n = 0
 	for _, b := range sb.Blocks {
 		for _, in := range b.Instrs {
-			isSend := false
+			var sent []ssa.Value
 			switch x := in.(type) {
 			case *ssa.Send:
-				isSend = true
+				sent = append(sent, x.X)
 			case *ssa.Select:
 				for _, st := range x.States {
 					if st.Dir == types.SendOnly {
-						isSend = true
+						sent = append(sent, st.Send)
 					}
 				}
 			}
-			if !isSend {
+			if len(sent) == 0 {
 				continue
 			}
 			n++
-			ok, how := c03ExtentKnown(p, sb, in)
+			e := c03ExtentAt(p, sb, in)
+			ok, how := e.known()
 			r.Check(ok, rule, FuncKey(sb)+"#send", p.Pos(in.Pos()), "the blob is sent "+how, bad)
+			if !ok {
+				continue
+			}
+			// the size the sent blob is declared with: the uint32 argument of the
+			// pkg/blob constructor the sent value is built from
+			var sizes []ssa.Value
+			for _, c := range CallsIn(sb, false) {
+				v := c.Value()
+				f := c.Callee()
+				if v == nil || f == nil || f.Pkg == nil || f.Pkg.Pkg.Path() != "perkeep.org/pkg/blob" || !IsNamed(v.Type(), "perkeep.org/pkg/blob", "Blob") {
+					continue
+				}
+				used := false
+				for _, s := range sent {
+					if c03Depends(s, func(x ssa.Value) bool { return x == ssa.Value(v) }) {
+						used = true
+					}
+				}
+				if !used {
+					continue
+				}
+				for _, a := range v.Call.Args {
+					if b, ok := a.Type().Underlying().(*types.Basic); ok && b.Kind() == types.Uint32 {
+						sizes = append(sizes, a)
+					}
+				}
+			}
+			ck := FuncKey(sb) + "#send#read-is-declared-size"
+			if len(sizes) != 1 {
+				r.Undecided(rule, ck, p.Pos(in.Pos()), fmt.Sprintf("found %d candidate(s) for the size the sent blob is declared with (the uint32 argument of the pkg/blob constructor the sent value is built from); cannot relate what was read to what is reported", len(sizes)))
+				continue
+			}
+			c03ReportExtentValue(r, rule, ck, p.Pos(in.Pos()), e, nil, sizes[0])
 		}
 	}
 	if n == 0 {
